@@ -371,6 +371,11 @@ async def _interp(ctx, ev, acts, inv, rec: Rec, step_name: str):
                 inv["collect"] = None
                 return None
             inv["collect"] = [(type(e).__name__, _uid_of(e)) for e in got]
+        elif k == "collect_cont":
+            # collect_events whose incomplete result does NOT end the invocation: the body goes on (and may fail) in the same invocation
+            _, tnames, buf = act
+            got = ctx.collect_events(ev, [ge.POOL[t] for t in tnames], buf)
+            inv["collect"] = None if got is None else [(type(e).__name__, _uid_of(e)) for e in got]
         elif k == "wait":
             _, tname, req, wid, timeout, with_wev, on_timeout = act
             if wid == "auto":
